@@ -44,7 +44,19 @@ struct G
     if (symmetric) {map.reset(new Map((S)((double)h[0] * u), res));} else {
       map.reset(new Map(Interval<S, DIM>(pt(lo), pt(hi)), res));
     }
-    ray.reset(new RayCasting<S, DIM>(map.get()));
+    if (((long long)(lo[0] + hi[0]) & 1) == 0) {ray.reset(new RayCasting<S, DIM>(map.get()));}
+    else {ray.reset(new RayCasting<S, DIM>()); ray->setGridIndexMapping(map.get());}          // both construction paths
+  }
+  // point the same caster at another grid (same unit, other resolution / extent); the old mapping stays alive
+  std::vector<std::unique_ptr<Map>> oldMaps;
+  std::string regrid(long long newR, const IV & l, const IV & h)
+  {
+    oldMaps.push_back(std::move(map));
+    R = newR; lo = l; hi = h;
+    map.reset(new Map(Interval<S, DIM>(pt(lo), pt(hi)), (S)((double)R * u)));
+    ray->setGridIndexMapping(map.get());
+    std::string line = reset(false);
+    return std::string("{\"e\":\"regrid\"") + line.substr(line.find(','));
   }
   std::string reset(bool symmetric) const
   {
@@ -68,7 +80,8 @@ struct G
     P x = map->computeCellCenterPosition(c);
     IV out; bool exact = true;
     for (size_t a = 0; a < DIM; ++a) {bool ok = true; out.push_back(units((double)x[a], ok)); exact = exact && ok;}
-    return vh::Ev("centre").vec("kk", kk).vec("c", out).b("exact", exact).done();
+    IV tab; for (size_t a = 0; a < DIM; ++a) {bool ok = true; tab.push_back(units((double)map->getCellCentersPositionAlong(a)[(size_t)kk[a]], ok)); exact = exact && ok;}
+    return vh::Ev("centre").vec("kk", kk).vec("c", out).vec("tab", tab).b("exact", exact).done();
   }
   // one cast through one of the API paths; every cell it returns becomes a step event
   void cast(int how, const IV & o, const IV & e, vh::Out & out)
@@ -158,8 +171,39 @@ static void randomExec(vh::Rng & r, const std::string & mode, vh::Out & out)
     }
     return;
   }
+  if (sizeof(S) == 4 && !nd && DIM == 2 && r.coin(1, 3)) {
+    // long grazing float rays: ~3000 units along one axis, one unit across, the end exactly on the border it reaches
+    IV gl{-1900, -1900}, gh{1900, 1900};
+    out.puts(g.regrid(8, gl, gh));
+    lo = gl; hi = gh;
+    for (int i = 0; i < 3; ++i) {
+      int major = (int)r.range(0, 1), minor = 1 - major;
+      long long len = r.range(2950, 3500), start = -1800 + r.range(0, 100);
+      start = (start / 8) * 8;                                       // a cell centre
+      long long b = ((r.range(-1500, 1500) / 8) * 8) + 4;              // a border of the minor axis (borders are at 8k + 4)
+      int dirM = r.coin() ? 1 : -1, dirm = r.coin() ? 1 : -1;
+      IV o(2), e(2);
+      o[major] = dirM > 0 ? start : -start; e[major] = o[major] + dirM * ((len / 8) * 8);     // both ends at cell centres of the major axis
+      o[minor] = b - dirm; e[minor] = b;                               // one unit across, ending on the border
+      if (dirm < 0) {o[minor] = b; e[minor] = b - 1;}                  // or starting on it
+      g.cast(0, o, e, out);
+    }
+    return;
+  }
   int ncasts = (int)r.range(1, 6);
   for (int i = 0; i < ncasts; ++i) {
+    if (i > 0 && !nd && r.coin(1, 4)) {
+      // the caster is pointed at another grid; the next cast uses the SAME origin point half of the time
+      long long nR = R == 2 ? 8 : 2;
+      IV nl = lo, nh = hi; for (size_t a = 0; a < DIM; ++a) {nl[a] -= r.range(0, 40); nh[a] += r.range(0, 40);}
+      IV keep = g.origin;
+      out.puts(g.regrid(nR, nl, nh));
+      lo = nl; hi = nh; R = nR;
+      IV e2 = point((int)r.range(0, 5));
+      IV o2 = (!keep.empty() && r.coin()) ? keep : point(0);
+      g.cast(r.coin() ? 0 : 3, o2, e2, out);
+      continue;
+    }
     IV o = point((int)r.range(0, 5)), e = point((int)r.range(0, 5));
     int shape = (int)r.range(0, 6);
     if (shape == 0) {e = o;}                                                    // coincident
